@@ -13,6 +13,16 @@
      state      ctl mutex; reads enginePaused only (monitor state, not simulation state)
      component  pauseForInspection: ctl mutex; if enginePaused then read else
      field        engine.Pause(); read (reflection over the component); engine.Continue()
+     field_paged    /api/field with slice_offset / slice_limit: the monitor's own reflective walk to the
+     field_missing  entry point and the page (or the 404 when the walk finds no such path) -- as the code
+                    is, the same pattern as field: the walk and the answer lie inside the pause.  A 404
+                    for a path that does not exist is the RESULT of a walk over component state, so it
+                    is an access like any other.  (Malformed paging parameters are answered 400 from the
+                    parameter syntax alone: no simulation state, not an endpoint class here.)
+                    EarlyWalk (a negative control, Monitor_negwalk.cfg; {} for the monitor as it is): the
+                    classes whose walk runs BEFORE pauseForInspection ("a bad path must not cost a
+                    pause"): the walk is an access window with no pause requested, field_missing
+                    answers without ever pausing, field_paged pauses afterwards for the page.
      now        reads the engine time, no mutex, no pause
      buffers    reads buffer levels of every registered buffer, no mutex, no pause
      progress   reads the progress counters the handlers update, no pause
@@ -46,6 +56,7 @@ CONSTANTS NEvents,     \* events the simulation handles
           Endpoints,   \* endpoint classes a client may request
           PauseWaits,  \* TRUE: Pause waits for the dispatch in flight (the engine as it is); FALSE: old engine
           HoldCtl,     \* TRUE: an inspection keeps engineControlMu until it has continued (the monitor as it is)
+          EarlyWalk,   \* endpoint classes that walk the component before pausing (negative control; {} = as it is)
           Atomic,      \* TRUE: schedules a sequential controller can realise (B3 emission)
           Record       \* TRUE: keep the schedule in hist and emit BEHAVIOUR lines
 
@@ -55,14 +66,15 @@ VARIABLES lpc, left, flag, dmu, running,    \* run loop, engine pause flag, disp
           hist
 vars == <<lpc, left, flag, dmu, running, mtx, mPaused, cpc, cep, cown, cleft, acc, hist>>
 
-AllEndpoints == {"pause", "continue", "state", "now", "tick", "component", "field", "buffers", "progress"}
+AllEndpoints == {"pause", "continue", "state", "now", "tick", "component", "field", "field_paged", "field_missing",
+                 "buffers", "progress"}
 Kind(ep) == CASE ep \in {"pause", "continue", "state"} -> "none"
               [] ep = "tick" -> "write"
               [] OTHER -> "read"
-UsesCtl(ep)  == ep \in {"pause", "continue", "state", "component", "field"}
-Inspects(ep) == ep \in {"component", "field"}
+UsesCtl(ep)  == ep \in {"pause", "continue", "state", "component", "field", "field_paged", "field_missing"}
+Inspects(ep) == ep \in {"component", "field", "field_paged", "field_missing"}
 
-ASSUME Endpoints \subseteq AllEndpoints
+ASSUME Endpoints \subseteq AllEndpoints /\ EarlyWalk \subseteq {"field_paged", "field_missing"}
 
 (* schedule entries: <<"go">> the controller lets the loop pass its gate; <<"req", ep>> a request
    is issued; <<"acc", ep, handler running, pause held>> the model's prediction for that request *)
@@ -117,7 +129,7 @@ ReqStart(c, ep) ==
     /\ cleft' = [cleft EXCEPT ![c] = @ - 1]
     /\ cep' = [cep EXCEPT ![c] = ep]
     /\ cown' = [cown EXCEPT ![c] = FALSE]
-    /\ cpc' = [cpc EXCEPT ![c] = IF UsesCtl(ep) THEN "acq" ELSE "acc"]
+    /\ cpc' = [cpc EXCEPT ![c] = IF ep \in EarlyWalk THEN "walk" ELSE IF UsesCtl(ep) THEN "acq" ELSE "acc"]
     /\ hist' = H("req", ep, FALSE, FALSE)
     /\ UNCHANGED <<lpc, left, flag, dmu, running, mtx, mPaused, acc>>
 
@@ -151,6 +163,21 @@ EWait(c) ==
     /\ UNCHANGED <<lpc, left, flag, dmu, running, cep, cleft, acc, hist>>
 
 Held(c) == cown[c] \/ mPaused
+
+(* EarlyWalk only: the reflective walk to the entry point before any pause is requested *)
+Walk(c) ==
+    /\ cpc[c] = "walk"
+    /\ acc' = [acc EXCEPT ![c] = TRUE]
+    /\ cpc' = [cpc EXCEPT ![c] = "walkEnd"]
+    /\ hist' = H("acc", cep[c], running, Held(c))
+    /\ UNCHANGED <<lpc, left, flag, dmu, running, mtx, mPaused, cep, cown, cleft>>
+WalkEnd(c) ==
+    /\ cpc[c] = "walkEnd"
+    /\ acc' = [acc EXCEPT ![c] = FALSE]
+    /\ IF cep[c] = "field_missing"
+         THEN cpc' = [cpc EXCEPT ![c] = "idle"] /\ cep' = [cep EXCEPT ![c] = "-"]      \* 404, never paused
+         ELSE cpc' = [cpc EXCEPT ![c] = "acq"] /\ cep' = cep                           \* pause now, page afterwards
+    /\ UNCHANGED <<lpc, left, flag, dmu, running, mtx, mPaused, cown, cleft, hist>>
 
 AccBegin(c) ==
     /\ cpc[c] = "acc"
@@ -190,8 +217,8 @@ Release(c) ==
     /\ UNCHANGED <<lpc, left, flag, dmu, running, mPaused, cown, cleft, acc, hist>>
 
 Client(c) == \/ \E ep \in Endpoints : ReqStart(c, ep)
-             \/ Acquire(c) \/ EPause(c) \/ EWait(c) \/ AccBegin(c) \/ AccEnd(c) \/ EContinue(c) \/ RAcq(c) \/ Release(c)
-ClientStep(c) == Acquire(c) \/ EPause(c) \/ EWait(c) \/ AccBegin(c) \/ AccEnd(c) \/ EContinue(c) \/ RAcq(c) \/ Release(c)
+             \/ Walk(c) \/ WalkEnd(c) \/ Acquire(c) \/ EPause(c) \/ EWait(c) \/ AccBegin(c) \/ AccEnd(c) \/ EContinue(c) \/ RAcq(c) \/ Release(c)
+ClientStep(c) == Walk(c) \/ WalkEnd(c) \/ Acquire(c) \/ EPause(c) \/ EWait(c) \/ AccBegin(c) \/ AccEnd(c) \/ EContinue(c) \/ RAcq(c) \/ Release(c)
 
 Quiet == /\ \A c \in Clients : cpc[c] = "idle" /\ cleft[c] = 0
          /\ lpc = "done" \/ (lpc = "wait" /\ flag = 1)
@@ -202,7 +229,7 @@ Spec == Init /\ [][Next]_vars /\ WF_vars(Loop) /\ \A c \in Clients : WF_vars(Cli
 TypeOK == /\ lpc \in {"chk", "load", "wait", "lockd", "hstart", "hend", "done"}
           /\ left \in 0..NEvents /\ flag \in {0, 1} /\ dmu \in BOOLEAN /\ running \in BOOLEAN
           /\ mtx \in Clients \cup {"none"} /\ mPaused \in BOOLEAN
-          /\ \A c \in Clients : /\ cpc[c] \in {"idle", "acq", "epause", "ewait", "acc", "accEnd", "racq", "econt", "rel"}
+          /\ \A c \in Clients : /\ cpc[c] \in {"idle", "walk", "walkEnd", "acq", "epause", "ewait", "acc", "accEnd", "racq", "econt", "rel"}
                                 /\ cep[c] \in Endpoints \cup {"-"} /\ cleft[c] \in 0..MaxReq
 InCS(c) == cpc[c] \in {"epause", "ewait", "econt", "rel"} \/ (cpc[c] \in {"acc", "accEnd"} /\ UsesCtl(cep[c]) /\ HoldCtl)
 (* engineControlMu: at most one control/inspection request in its critical section *)
@@ -211,7 +238,7 @@ MutexOK == \A c \in Clients : InCS(c) => mtx = c
    its critical section (pauseForInspection restores what it found) *)
 PauseMirror == mtx = "none" => (flag = 1 <=> mPaused)
 (* a window is open only inside a request that accesses simulation state *)
-WindowOK == \A c \in Clients : acc[c] => (cpc[c] = "accEnd" /\ Kind(cep[c]) # "none")
+WindowOK == \A c \in Clients : acc[c] => (cpc[c] \in {"accEnd", "walkEnd"} /\ Kind(cep[c]) # "none")
 RunningOK == running <=> lpc = "hend"
 DispatchLockOK == PauseWaits => (dmu <=> lpc \in {"hstart", "hend"})
 (* an inspection never reads without a pause requested (its own or the user's) *)
